@@ -245,6 +245,86 @@ fn check_group(r: &mut Report, conns: &[Conn], group: &[usize], alone: &[Vec<Vec
     }
 }
 
+/// an HTTP exchange with chosen initial sequence numbers, optionally closed by FIN from both sides
+fn http_conn_isn(name: &str, e: &Ends, req: &[u8], resp: &[u8], cisn: u32, sisn: u32, fin: bool, t: u64) -> Conn {
+    let mut pkts = vec![(seg(e, true, SYN, cisn, &[], None), t), (seg(e, false, SYN | ACK, sisn, &[], None), t + 1)];
+    if !req.is_empty() {
+        pkts.push((seg(e, true, ACK | PSH, cisn.wrapping_add(1), req, None), t + 2));
+    }
+    if !resp.is_empty() {
+        pkts.push((seg(e, false, ACK | PSH, sisn.wrapping_add(1), resp, None), t + 3));
+    }
+    if fin {
+        pkts.push((seg(e, true, ACK | 1, cisn.wrapping_add(1 + req.len() as u32), &[], None), t + 4));
+        pkts.push((seg(e, false, ACK | 1, sisn.wrapping_add(1 + resp.len() as u32), &[], None), t + 5));
+    }
+    Conn { name: s(name), pkts }
+}
+/// (predecessors, successors) that reuse one 4-tuple: the successor starts after the predecessor's last packet
+pub fn successions() -> Vec<(Conn, Conn)> {
+    let mut v = vec![];
+    let req = b"GET /first HTTP/1.1\r\nHost: first.example\r\nUser-Agent: curl/7.0\r\n\r\n";
+    let resp = b"HTTP/1.1 200 OK\r\nServer: Apache\r\nContent-Length: 0\r\n\r\n";
+    let req2 = b"GET /second HTTP/1.1\r\nHost: second.example\r\nUser-Agent: Mozilla/5.0 (X11) Firefox/99\r\nAccept: */*\r\n\r\n";
+    let resp2 = b"HTTP/1.1 404 Not Found\r\nServer: nginx/1.2.3\r\nContent-Type: text/html\r\n\r\n";
+    let e = Ends { cip: 40, cport: 46000, sip: 41, sport: 80, v6: false };
+    let succ_h1 = http_conn_isn("successor-http1", &e, req2, resp2, 700_000, 900_000, false, T0 + 100);
+    let (q, a) = (h2_request(&[("x-later", "2", Rep::LitIdxNewName)], &[], &[]), h2_response(&[("server", "late", Rep::LitNoIdx)], &[]));
+    let succ_h2 = http_conn_isn("successor-http2", &e, &q, &a, 5, 4_294_967_000, false, T0 + 100);
+    let preds = vec![
+        http_conn_isn("complete-exchange", &e, req, resp, 1000, 5000, false, T0),
+        http_conn_isn("complete-exchange-then-fin", &e, req, resp, 1000, 5000, true, T0),
+        http_conn_isn("request-without-response", &e, req, &[], 1000, 5000, false, T0),
+        http_conn_isn("request-without-response-then-fin", &e, req, &[], 1000, 5000, true, T0),
+        http_conn_isn("handshake-only", &e, &[], &[], 1000, 5000, false, T0),
+        http_conn_isn("unfinished-head", &e, &req[..20], &resp[..10], 1000, 5000, false, T0),
+        http_conn_isn("binary-data", &e, &[0xffu8; 40], &[0x16, 3, 1, 0, 2, 1, 0], 1000, 5000, true, T0),
+    ];
+    for p in &preds {
+        for sc in [&succ_h1, &succ_h2] {
+            v.push((p.clone(), sc.clone()));
+        }
+    }
+    // TLS: the same client endpoint connects again
+    let e = Ends { cip: 42, cport: 46001, sip: 43, sport: 443, v6: false };
+    let hello = hello_bytes("first.example");
+    let hello2 = hello_bytes("second.example");
+    let tls = |name: &str, isn: u32, parts: Vec<&[u8]>, t: u64| -> Conn {
+        let mut pkts = vec![(seg(&e, true, SYN, isn, &[], None), t)];
+        let mut off = 1u32;
+        for p in parts {
+            pkts.push((seg(&e, true, ACK | PSH, isn.wrapping_add(off), p, None), t + off as u64));
+            off += p.len() as u32;
+        }
+        Conn { name: s(name), pkts }
+    };
+    let succ = tls("successor-clienthello", 800_000, vec![&hello2[..50], &hello2[50..]], T0 + 100);
+    for p in [tls("complete-clienthello", 1000, vec![&hello[..]], T0), tls("unfinished-clienthello", 1000, vec![&hello[..60]], T0), tls("record-header-only", 1000, vec![&hello[..5]], T0), tls("application-data", 1000, vec![&[0x17, 3, 3, 0, 2, 1, 2]], T0)] {
+        v.push((p, succ.clone()));
+    }
+    v
+}
+fn check_successions(r: &mut Report) {
+    for (p, sc) in successions() {
+        for an in ANALYZERS.iter() {
+            // uptime is by design computed across packets of one endpoint pair: these connections carry no timestamps
+            let alone = run_trace(*an, &sc.pkts.iter().map(|(f, t)| (f, *t)).collect::<Vec<_>>());
+            let both = run_trace(*an, &p.pkts.iter().chain(sc.pkts.iter()).map(|(f, t)| (f, *t)).collect::<Vec<_>>());
+            r.exec((p.pkts.len() + sc.pkts.len()) as u64);
+            match (alone, both) {
+                (Ok(a), Ok(b)) => {
+                    let tail = &b[p.pkts.len()..];
+                    r.outcome(&(format!("{an:?}"), &p.name, &sc.name, tail));
+                    if let Some(i) = (0..a.len()).find(|&i| a[i] != tail[i]) {
+                        r.dev(format!("C07/{an:?}/{}/disabled-by-earlier-connection-on-the-same-endpoints/{}", sc.name, p.name), "succession", || json!({"kind": "succession", "analyzer": format!("{an:?}"), "predecessor": p.name, "successor": sc.name, "packet_index": i, "alone": a[i], "after_predecessor": tail[i]}));
+                    }
+                }
+                (a, b) => r.dev(format!("C07/{an:?}/panic"), "panic", || json!({"kind": "succession", "predecessor": p.name, "successor": sc.name, "detail": format!("{:?} {:?}", a.err(), b.err())})),
+            }
+        }
+    }
+}
+
 pub fn run(thorough: bool) -> Outcome {
     let conns = connections();
     // isolated runs: per connection, per analyzer, per packet
@@ -295,9 +375,10 @@ pub fn run(thorough: bool) -> Outcome {
         }
         r
     });
+    check_successions(&mut pre);
     Outcome {
         report: pre.merge(rep),
-        rule: "16 connections (TCP handshakes with timestamps, ClientHello in 1/2/3 segments incl. IPv6, two HTTP/1 exchanges sharing a server, HTTP/2 exchanges: static only / literal with indexing / referencing foreign dynamic entries / size update 0 / state change followed by a decoding error / self reference, garbage after SYN, a TLS flow sharing the HTTP client's endpoint): every unordered pair (thorough: every triple of the 8 shortest) in every order-preserving interleaving on fresh TCP, HTTP, TLS and unified analyzers (capacity 8), each packet's result compared with the isolated run; distinct = distinct per-trace result vectors".into(),
+        rule: "16 connections (TCP handshakes with timestamps, ClientHello in 1/2/3 segments incl. IPv6, two HTTP/1 exchanges sharing a server, HTTP/2 exchanges: static only / literal with indexing / referencing foreign dynamic entries / size update 0 / state change followed by a decoding error / self reference, garbage after SYN, a TLS flow sharing the HTTP client's endpoint): every unordered pair (thorough: every triple of the 8 shortest) in every order-preserving interleaving on fresh TCP, HTTP, TLS and unified analyzers (capacity 8), each packet's result compared with the isolated run; plus successions on one 4-tuple: 7 HTTP predecessors (complete, closed by FIN, request only, handshake only, unfinished head, binary) x HTTP/1 and HTTP/2 successors with other initial sequence numbers, 4 TLS predecessors x a ClientHello successor, the successor's results compared with its isolated run; distinct = distinct per-trace result vectors".into(),
         exhaustive: true,
         bounds: json!({"connections": conns.len(), "groups": groups.len(), "max_group": if thorough {3} else {2}}),
     }
@@ -305,6 +386,12 @@ pub fn run(thorough: bool) -> Outcome {
 
 pub fn replay(ex: &Value) -> Report {
     let mut r = Report::new();
+    if ex["kind"].as_str() == Some("succession") {
+        check_successions(&mut r);
+        let want = format!("{}", ex["predecessor"].as_str().unwrap_or(""));
+        r.devs.retain(|k, _| k.ends_with(&want));
+        return r;
+    }
     let conns = connections();
     let names: Vec<String> = ex["connections"].as_array().map(|a| a.iter().filter_map(|x| x.as_str().map(|s| s.to_string())).collect()).unwrap_or_default();
     let group: Vec<usize> = names.iter().filter_map(|n| conns.iter().position(|c| &c.name == n)).collect();
